@@ -205,7 +205,8 @@ def _group_recompute(g, thr, nested):
     expected = [[table_fp(recompute_edges(m.df_features, dict(low))) for m in row] for row in rows]
     g.recompute_edges(red)
     got = [[table_fp(m.df_features) for m in row] for row in (g.models if nested else [g.models])]
-    return (got, expected) if nested else (got[0], expected[0])
+    held = [[table_fp(d) for d in row] for row in (g.df_features if nested else [g.df_features])]      # what the group itself exposes afterwards
+    return (got, expected, held) if nested else (got[0], expected[0], held[0])
 
 
 def retry_on_timeout(fn):
@@ -237,7 +238,7 @@ def run_2d(sigs, fs, f_range, kwargs, n_jobs, progress, delays, logdir, via_grou
     keys = {sig_key(s): i + 1 for i, s in enumerate(sigs)}
     json.dump({sig_key(s): float(d) for s, d in zip(sigs, delays)}, open(os.path.join(logdir, 'delays.json'), 'w'))
     os.environ['BYCVERIF_POOL_LOG'] = logdir
-    raised, out, models, rmodels, rexpected = '', [], [], [], []
+    raised, out, models, rmodels, rexpected, rheld = '', [], [], [], [], []
     try:
         with warnings.catch_warnings():
             warnings.simplefilter('ignore')
@@ -261,7 +262,7 @@ def run_2d(sigs, fs, f_range, kwargs, n_jobs, progress, delays, logdir, via_grou
                     if len(g) != len(models) or [table_fp(m.df_features) for m in g] != [table_fp(g[i].df_features) for i in range(len(g))]:
                         models = models + [-2]          # len / iteration / indexing of the group disagree with its models
                     if models == out:
-                        rmodels, rexpected = _group_recompute(g, k0['threshold_kwargs'], False)
+                        rmodels, rexpected, rheld = _group_recompute(g, k0['threshold_kwargs'], False)
                 else:
                     dfs = compute_features_2d(sigs, fs, f_range, compute_features_kwargs=kwargs, axis=0, return_samples=return_samples, n_jobs=n_jobs, progress=progress)
                     out = [table_fp(d) for d in dfs]
@@ -272,7 +273,7 @@ def run_2d(sigs, fs, f_range, kwargs, n_jobs, progress, delays, logdir, via_grou
     finally:
         os.environ.pop('BYCVERIF_POOL_LOG', None)
     logs, realised = read_logs(logdir, keys)
-    return {'mode': '2d', 'T': len(sigs), 'n0': len(sigs), 'n1': 0, 'out': out, 'models': models, 'rmodels': rmodels, 'rexpected': rexpected, 'logs': logs or [[]], 'raised': raised,
+    return {'mode': '2d', 'T': len(sigs), 'n0': len(sigs), 'n1': 0, 'out': out, 'models': models, 'rmodels': rmodels, 'rexpected': rexpected, 'rheld': rheld, 'logs': logs or [[]], 'raised': raised,
             'check_schedule': bool(logs) and not raised}, realised
 
 
@@ -307,7 +308,7 @@ def run_3d(sigs, fs, f_range, kwargs, axis, n_jobs, delays, logdir, via_group=Fa
     keys = {sig_key(s): k + 1 for k, s in enumerate(tasks)}
     json.dump({sig_key(s): float(d) for s, d in zip(tasks, delays)}, open(os.path.join(logdir, 'delays.json'), 'w'))
     os.environ['BYCVERIF_POOL_LOG'] = logdir
-    raised, out, models, rmodels, rexpected = '', [], [], [], []
+    raised, out, models, rmodels, rexpected, rheld = '', [], [], [], [], []
     try:
         with warnings.catch_warnings():
             warnings.simplefilter('ignore')
@@ -324,11 +325,12 @@ def run_3d(sigs, fs, f_range, kwargs, axis, n_jobs, delays, logdir, via_group=Fa
                     g.fit(sigs, fs, f_range, axis=axis, n_jobs=n_jobs, progress=progress)
                     res = g.df_features
                     models = [[table_fp(m.df_features) if (i < n0 and j < n1 and np.array_equal(m.sig, sigs[i, j])) else -1 for j, m in enumerate(row)] for i, row in enumerate(g.models)]
-                    if models == [[table_fp(d) for d in row] for row in res]:
-                        rmodels, rexpected = _group_recompute(g, kwargs['threshold_kwargs'], True)
+                    out = [[table_fp(d) for d in row] for row in res]          # what the fit returned, fingerprinted BEFORE anything else is called on the group
+                    if models == out:
+                        rmodels, rexpected, rheld = _group_recompute(g, kwargs['threshold_kwargs'], True)
                 else:
                     res = compute_features_3d(sigs, fs, f_range, compute_features_kwargs=kwargs, axis=axis, n_jobs=n_jobs, progress=progress)
-                out = [[table_fp(d) for d in row] for row in res]
+                    out = [[table_fp(d) for d in row] for row in res]
     except PoolTimeout:
         raise
     except Exception as ex:
@@ -336,7 +338,7 @@ def run_3d(sigs, fs, f_range, kwargs, axis, n_jobs, delays, logdir, via_group=Fa
     finally:
         os.environ.pop('BYCVERIF_POOL_LOG', None)
     logs, realised = read_logs(logdir, keys)
-    return {'mode': mode, 'T': len(tasks), 'n0': n0, 'n1': n1, 'out': out, 'models': models, 'rmodels': rmodels, 'rexpected': rexpected, 'logs': logs or [[]], 'raised': raised,
+    return {'mode': mode, 'T': len(tasks), 'n0': n0, 'n1': n1, 'out': out, 'models': models, 'rmodels': rmodels, 'rexpected': rexpected, 'rheld': rheld, 'logs': logs or [[]], 'raised': raised,
             'check_schedule': bool(logs) and not raised}, realised
 
 
